@@ -1,0 +1,19 @@
+//go:build verif
+// +build verif
+
+package throttle
+
+import (
+	"reflect"
+	"time"
+)
+
+// VerifBucketParams reads the token bucket's integer parameters (the rate
+// limiter library keeps them unexported).
+func (throttler *ThrottledRecorder) VerifBucketParams() (capacity, quantum int64, fillInterval time.Duration) {
+	v := reflect.ValueOf(throttler.bucket).Elem()
+	return v.FieldByName("capacity").Int(), v.FieldByName("quantum").Int(), time.Duration(v.FieldByName("fillInterval").Int())
+}
+
+// VerifMinRecordingLength returns the restart guard in frames.
+func (throttler *ThrottledRecorder) VerifMinRecordingLength() int64 { return throttler.minRecordingLength }
